@@ -143,6 +143,22 @@ def stepMsg (st : St) (line : String) : St × String :=
         | none => (st, "bad-op")
       | _ => (st, "bad-op")
     | _, _, _ => (st, "bad-op")
+  | "regdry" :: _mode :: addrOK :: addr :: nc :: rest =>
+    -- mode (drop | fail | gov) is how the harness discards the context branch; the model: identity on the state
+    match bool? addrOK, unhex addr, nc.toNat? with
+    | some addrOK, some addr, some nc =>
+      match parseList nc rest with
+      | some (chains, na :: rest2) =>
+        match na.toNat? with
+        | some na =>
+          match parseList na rest2 with
+          | some (addrs, []) =>
+            let (st', ok) := applyRegDry st addrOK ⟨addr, chains, addrs⟩
+            (st', (if ok then "dry ok G:" else "dry rej G:") ++ dumpReg st'.reg)
+          | _ => (st, "bad-op")
+        | none => (st, "bad-op")
+      | _ => (st, "bad-op")
+    | _, _, _ => (st, "bad-op")
   | ["q", ch, a, oa] =>
     match unhex ch, unhex a, unhex oa with
     | some ch, some a, some oa =>
